@@ -29,17 +29,17 @@ package disk
 
 //@ func (c *diskCache) Stats() (totalSize int64, reservedSize int64, numItems int, uncompressedSize int64)
 //@   serves C03 C07
-//@   requires c != nil && !locked
+//@   requires c != nil && !muHeld
 //@   modifies lruState(c.lru)
-//@   ensures[C07] unlocked: !locked
+//@   ensures[C07] unlocked: !muHeld
 //@   ensures[C03] exact: totalSize == c.lru.currentSize && reservedSize == c.lru.reservedSize && uncompressedSize == c.lru.uncompressedSize && numItems == len(c.lru.cache)
 //@   ensures[C03] bounded: totalSize <= c.lru.maxSize && reservedSize >= 0 && totalSize == reservedSize + sum4k(c.lru.ll.seq, #lruItem.sizeOnDisk)
 
 //@ func (c *diskCache) Contains(ctx context.Context, kind cache.EntryKind, hash string, size int64) (bool, int64)
 //@   serves C03 C05 C07 C10 C12 C18
-//@   requires wfCache(c) && !locked
+//@   requires wfCache(c) && !muHeld
 //@   modifies lruState(c.lru), hitN, hitSize, pxN, pxFound, pxSize
-//@   ensures[C07] unlocked: !locked
+//@   ensures[C07] unlocked: !muHeld
 //@   ensures[C02,C10] empty: (len(hash) == 64 && isEmptyCas(kind, hash, size)) ==> (result0 && result1 == 0)
 //@   ensures[C10] badhash: len(hash) != 64 ==> !result0
 //@   ensures[C05,C10] localhit: (len(hash) == 64 && !isEmptyCas(kind, hash, size) && hitN > old(hitN) && !mismatch(size, hitSize)) ==> (result0 && result1 == hitSize)
@@ -54,16 +54,33 @@ package disk
 
 //@ func (c *diskCache) commit(key string, legacy bool, tempfile string, reservedSize int64, logicalSize int64, sizeOnDisk int64, random string) (unreserve bool, removeTempfile bool, err error)
 //@   serves C01 C03 C04 C07 C08 C12
-//@   requires wfCache(c) && !locked
+//@   requires wfCache(c) && !muHeld
 //@   requires[C03] own: 0 <= reservedSize && reservedSize <= held
 //@   requires sizes: 0 <= sizeOnDisk && sizeOnDisk <= B62() && 0 <= logicalSize && logicalSize <= B62()
 //@   modifies lruState(c.lru), held, adopted
-//@   ensures[C07] unlocked: !locked
+//@   ensures[C07] unlocked: !muHeld
 //@   ensures[C03] held: held == old(held) - (unreserve ? 0 : reservedSize)
 //@   ensures[C04] adopt: (removeTempfile ==> adopted == old(adopted)) && (!removeTempfile ==> adopted == old(adopted) + 1)
 //@   ensures[C01,C12] result: (err == nil <==> !removeTempfile) && (err == nil ==> !unreserve) && (unreserve ==> reservedSize > 0)
 //@   call Add#* asserts[C01,C04] item: arg1 == key && arg2.size == logicalSize && arg2.sizeOnDisk == sizeOnDisk && arg2.random == random && arg2.legacy == legacy
 //@   call Unreserve#* asserts[C03] amount: arg1 == reservedSize
+
+//@ func (c *diskCache) availableOrTryProxy(kind cache.EntryKind, hash string, size int64, offset int64, zstd bool) (io.ReadCloser, int64, bool, error)
+//@   serves C02 C03 C05 C07 C12 C14 C17 C18
+//@   requires wfCache(c) && !muHeld && held >= 0 && len(hash) == 64
+//@   modifies lruState(c.lru), held, resN, hitN, hitSize
+//@   ensures[C07] unlocked: !muHeld
+//@   ensures[C03,C12] held: held == old(held) + ((result2 && size > 0 && result3 == nil) ? size : 0)
+//@   ensures[C18] proxylimit: (result2 && result3 == nil) ==> (c.proxy != nil && size <= c.maxProxyBlobSize && result0 == nil)
+//@   ensures[C02,C10] hitsize: result0 != nil ==> (hitN > old(hitN) && result1 >= 0 && !result2)
+//@   ensures[C02,C10] hitmatch: (result0 != nil && (hitN == old(hitN) + 1 || kind != 1)) ==> !mismatch(size, result1)
+//@   ensures[C02] cashit: (result0 != nil && kind == 1) ==> (result1 == hitSize && result3 == nil)
+//@   ensures[C17] readsnotrefused: result0 != nil ==> resN == old(resN)
+//@   ensures[C12,C17] errclass: (result3 != nil && resN > old(resN)) ==> istype(result3, "*cache.Error")
+//@   ensures[C02] miss: result0 == nil ==> result1 == 0 - 1
+//@   call Reserve#* asserts[C05,C12] logical: arg1 == size && size <= c.maxProxyBlobSize && c.proxy != nil
+//@   call GetZstdReadCloser#* asserts[C02] args: arg2 == size && arg3 == offset && zstd
+//@   call GetUncompressedReadCloser#* asserts[C02] args: arg2 == size && arg3 == offset && !zstd
 
 //@ func (c *diskCache) writeAndCloseFile(ctx context.Context, r io.Reader, kind cache.EntryKind, hash string, size int64, f *os.File) (int64, error)
 //@   serves C01 C08 C14
@@ -75,12 +92,12 @@ package disk
 
 //@ func (c *diskCache) Put(ctx context.Context, kind cache.EntryKind, hash string, size int64, r io.Reader) (rErr error)
 //@   serves C01 C03 C04 C07 C08 C12 C18
-//@   requires wfCache(c) && !locked && r != nil && ctx != nil && held >= 0
+//@   requires wfCache(c) && !muHeld && r != nil && ctx != nil && held >= 0
 //@   modifies lruState(c.lru), held, adopted, tmpOpen, tmpName, tmpRandom, tfc.idum, pxPuts, resN
 //@   ensures[C18] exactlimit: (isCacheErr(rErr, 400) && resN == old(resN)) ==> (size < 0 || size > c.maxBlobSize || len(hash) != 64)
 //@   ensures[C12] once: pxPuts == old(pxPuts) || pxPuts == old(pxPuts) + 1
 //@   ensures[C12] rejectednotsent: (size > c.maxBlobSize || size < 0 || len(hash) != 64 || c.proxy == nil) ==> pxPuts == old(pxPuts)
-//@   ensures[C07] unlocked: !locked
+//@   ensures[C07] unlocked: !muHeld
 //@   ensures[C03] noleak: held == old(held)
 //@   ensures[C04] tmpclean: tmpOpen - adopted == old(tmpOpen) - old(adopted)
 //@   ensures[C18] toolarge: size > c.maxBlobSize ==> (isCacheErr(rErr, 400) && adopted == old(adopted) && tmpOpen == old(tmpOpen))
